@@ -166,12 +166,21 @@ def check(case, ctx):
 @st.composite
 def cases(draw, nmax):
     cls = draw(st.sampled_from(["bin-und", "bin-dir", "sym-w", "w-dir"]))
+    signed_rows = None
     directed = cls in ("bin-dir", "w-dir")
     A = draw(c09._adj(nmax, directed))
     if cls.startswith("bin"):
         W = A.astype(float)
     else:
         W = draw(gen.weights_for(A, draw(st.sampled_from(["dyadic", "float", "tie"])), directed))
+        if cls == "sym-w" and draw(st.integers(0, 3)) == 0:
+            # some negative weights: the directed and the undirected formula still have to agree on a symmetric matrix
+            pr = [(i, j) for (i, j) in gen.pairs(len(W), False) if W[i, j] != 0]
+            neg = draw(st.lists(st.booleans(), min_size=len(pr), max_size=len(pr)))
+            for (i, j), b in zip(pr, neg):
+                if b:
+                    W[i, j] = W[j, i] = -W[i, j]
+            signed_rows = ["clustering_coef_wd|wu", "transitivity_wd|wu", "degrees_dir."]
         if draw(st.integers(0, 2)) == 0:
             # a few connections weaker than the others by 18 orders of magnitude: still connections for every weight-blind routine
             pr = [(i, j) for (i, j) in gen.pairs(len(W), directed) if W[i, j] != 0]
@@ -181,8 +190,16 @@ def cases(draw, nmax):
                     W[i, j] *= 2.0 ** -60
                     if not directed:
                         W[j, i] = W[i, j]
+    rows = signed_rows
+    if cls.startswith("bin") and draw(st.integers(0, 3)) == 0:
+        # self-connections on a 0/1 matrix: irrelevant for every path-based pair (no shortest path between two nodes uses one)
+        dg = draw(st.lists(st.booleans(), min_size=len(W), max_size=len(W)))
+        for i, b in enumerate(dg):
+            if b:
+                W[i, i] = 1.0
+        rows = ["distance_wei|bin", "betweenness_wei|bin", "edge_betweenness_wei|bin", "efficiency_wei|bin(global)", "efficiency_wei('global')|bin(global)"]
     return {"class": cls, "W": W, "order": draw(st.sampled_from(gen.ORDERS)), "dtype": draw(st.sampled_from(["int64", "float64", "bool"])),
-            "sandwich": draw(st.integers(0, 2)) == 0}
+            "sandwich": draw(st.integers(0, 2)) == 0 and rows is None, "rows": rows}
 
 
 @st.composite
